@@ -193,7 +193,7 @@ func shiftSpace[T any](r *Run, d *Driver[T], name string, inputs [][]byte, cfgs 
 func checkC11(r *Run) {
 	r.Assume = []string{"offsets k in {1,2,3,255,256,257,32767,32768,65535-len-1,65535-len} (thorough: every k for every 40th input); junk kinds NUL, 'a', CRLF pairs, ': ', 0xff, CRLFCRLF",
 		"comparison: one-shot at offset 0 vs one-shot at offset k; non-empty fields shifted by exactly k, empty fields shifted or unset, every other value equal",
-		"relocation of parsed URIs is covered by C18 (AdjustOffs); ParseURI itself always parses from offset 0 of the slice it is given"}
+		"parsed URIs: AdjustOffs to every listed offset k with span = URI length (the full span/offset product is C18); ParseURI itself always parses from offset 0 of the slice it is given"}
 	maxIn := r.pick(6000, 60000)
 	every := 40
 	plain := []Cfg{{HdrCap: -1, ValCap: -1}}
@@ -260,6 +260,30 @@ func checkC11(r *Run) {
 	shiftSpace(r, uriParamsDrv, "uriparams", sub(uriListSpaces(r, false)), ucf, every)
 	shiftSpace(r, uriHdrsDrv, "urihdrs", sub(uriListSpaces(r, true)), ucf, every)
 	shiftSpace(r, skipQuotedDrv, "skipquoted", sub(skipQuotedSpaces(r)), plain, every)
+	// relocation of parsed URIs: moved to offset k (span = URI length) every component denotes the same text
+	fam := c15Family(r.pick(300, 1500))
+	parallelFor(r, len(fam), func(c *enumCtx, i int) {
+		s := []byte(fam[i].String())
+		ks := c11Offsets(len(s))
+		if !r.quick() && i%40 == 0 {
+			ks = nil
+			for k := 1; k+len(s) <= 65535; k++ {
+				ks = append(ks, k)
+			}
+		}
+		for _, k := range ks {
+			vs, _ := evalC18(s, 0, k, len(s))
+			c.st.Transitions++
+			for _, v := range vs {
+				v.Property = "C11"
+				v.Case.Kind = "C11uri"
+				r.Col.add(v)
+			}
+		}
+		c.st.Evals++
+		c.st.States++
+		c.st.Nontrivial++
+	})
 	r.St.sample(fmt.Sprintf("%q at offsets %v", longMsgs[0][:60], c11Offsets(len(longMsgs[0]))))
 	r.Bounds["strided_input_sets"] = collectNotes
 	if len(collectNotes) > 0 {
@@ -302,6 +326,14 @@ func init() {
 	regShift(uriHdrsDrv)
 	regShift(skipQuotedDrv)
 	replayers["C11"] = func(prop string, c *Case) []*Violation { return shiftReg[c.Driver](c) }
+	replayers["C11uri"] = func(prop string, c *Case) []*Violation {
+		vs, _ := evalC18(c.input(), exInt(c.Extra, "src"), exInt(c.Extra, "tgt"), exInt(c.Extra, "span"))
+		for _, v := range vs {
+			v.Property = "C11"
+			v.Case.Kind = "C11uri"
+		}
+		return vs
+	}
 	_ = strings.Repeat
 	register("C11", &checkDef{fn: checkC11,
 		rule:        "E4: every input (all prefixes included) of the message menus and of each sub-parser's C02 space (two levels below its byte bound) is parsed at offset 0 and at each listed offset k behind junk of several kinds on the real code; verdict equal, offset and every non-empty field shifted by exactly k, all other values equal; states = inputs, transitions = parses at an offset; non-trivial = inputs with a definitive verdict",
